@@ -87,13 +87,14 @@ pub fn run(args: &[String]) {
         n_pts += 1;
         let n = d["n"].as_u64().unwrap() as usize;
         let (a, c) = (d["a"].as_u64().unwrap(), d["c"].as_u64().unwrap());
-        let p = a as f64 / c as f64;
+        let pexp = d["pexp"].as_u64().unwrap_or(0);
+        let p = if pexp > 0 { 2f64.powi(-(pexp as i32)) } else { a as f64 / c as f64 };
         note_call(json!({"pt": d}));
         let bl = bloom(n, p, seed);
         if bl["k"] != d["kspec"] {
             kdrift += 1; // the code's k differs from the spec's K(p): mechanism drift, not a verdict
         }
-        out.put(&json!({"k":"p","s":"sizing","tid":n_pts,"n":n,"a":a,"c":c,"kspec":d["kspec"],"bloom":bl,
+        out.put(&json!({"k":"p","s":"sizing","tid":n_pts,"n":n,"a":a,"c":c,"pexp":pexp,"kspec":d["kspec"],"bloom":bl,
                         "ck4": cuckoo(n, p, false, seed), "ck8": cuckoo(n, p, true, seed)}));
     }
     out.flush();
